@@ -115,6 +115,17 @@ def ring4(cname, p0, p1, explicit):
     return s
 
 
+def annulene(cname, n, lig, par):
+    """(round 3) ring of n carbons 0..n-1, substituent n+i on carbon i (lig: 0 all H, 1 one F, 2 F on carbons 0 and 1, 3 F on carbons 0 and 2); every ring
+    bond (par == 0) or every second ring bond (par == 1, Kekule structure) carries a PlanarBond, ring neighbours cis: one atom closes two descriptors at once"""
+    s = _spec(cname)
+    fl = {0: (), 1: (0,), 2: (0, 1), 3: (0, 2)}[lig]
+    s["atoms"] = [(i, "C", {}) for i in range(n)] + [(n + i, "F" if i in fl else "H", {}) for i in range(n)]
+    s["bonds"] = [(i, (i + 1) % n, None, {}) for i in range(n)] + [(i, n + i, None, {}) for i in range(n)]
+    s["bstereo"] = [("PB", ((i - 1) % n, n + i, i, (i + 1) % n, (i + 2) % n, n + (i + 1) % n), 0) for i in range(n) if par == 0 or i % 2 == 0]
+    return s
+
+
 def sn2(variant, pr, pp, fleeting):
     """SCRG: C0 with H1 F2 Cl3; nucleophile 4 (formed bond 0-4), leaving group 5 (broken bond 0-5)."""
     s = _spec("SCRG")
